@@ -204,6 +204,17 @@ CLAIMED['C20'] = dict(
     note='Trusts configargparse to merge config-file values into the same argparse actions as command-line values.',
     ref='DESIGN.md section 3, C20')
 
+CLAIMED['C16'] = dict(
+    technique='statement-order / nesting rules on the CFG + default-argument and keyword census',
+    text='Static, COUNTING clause only: System.msg increments violations by one under thresh < 0, not nested under the verbosity test and '
+         'after the `once` filter; Documentable.report defaults to a negative threshold and forwards it (R16.1); the reporters the '
+         'property names (unresolvable / ambiguous cross-reference, markup errors, field problems, parser warnings) call report() '
+         'without a non-negative threshold (R16.2); driver.main sets 2 exactly under recorded parse errors, 3 exactly under '
+         '`violations and warnings_as_errors` after it, after make(), and returns that value (R16.3). The line-number half of the '
+         'property (arithmetic over runtime values) is NOT decided.',
+    note='Line numbers of warnings are outside static reach and stated as undecided.',
+    ref='DESIGN.md section 3, C16')
+
 NOT_APPLICABLE = {
     'C04': 'relation between expandName results and the interpreter import system over all projects: value computations, no clause visible in the shape of the code (DESIGN.md section 5)',
     'C06': 'quantifies over processing schedules; name resolution during the AST walk is order sensitive by design, no structural bound (DESIGN.md section 5); the one structural fact (post-processing after the drain loop) is checked under C05',
